@@ -41,10 +41,18 @@ def build_full_trace(src: str) -> dict:
     from core import impl_compile, p_from_impl
 
     calls: list = []
+    ctrs: list = []      # the counter objects seen, kept alive so that identity is not reused
     orig = mm.ExplorerScriptMacro.build
 
+    def ctr_index(c: Any) -> int:
+        for i, x in enumerate(ctrs):
+            if x is c:
+                return i
+        ctrs.append(c)
+        return len(ctrs) - 1
+
     def build(self, op_idx_counter, lbl_idx_counter, parameters, smb):  # type: ignore
-        rec = {"macro": self.name, "cl0": lbl_idx_counter.count, "co0": op_idx_counter.count,
+        rec = {"macro": self.name, "ctr": ctr_index(lbl_idx_counter), "cl0": lbl_idx_counter.count, "co0": op_idx_counter.count,
                "sigma": [[k, p_from_impl(v)] for k, v in parameters.items()], "bp": _items(self.blueprints, False)}
         out = orig(self, op_idx_counter, lbl_idx_counter, parameters, smb)
         rec.update({"out": _items(out, True), "cl1": lbl_idx_counter.count, "co1": op_idx_counter.count})
@@ -78,6 +86,26 @@ def check_kbuild(run: Any, texts: list[str]) -> None:
     if bad or not calls:
         run.correspondence_broken("K-build (Comp/MacroBuild.v)", "the invocations of build could not be recorded", {"first": bad[:1], "calls": len(calls)})
         return
+    # the premise of C05_labels_private_per_expansion on the real sequences of builds: the label counter a build starts
+    # from is not below the one the build before it ended with - for builds that draw from the same counter object (the
+    # bodies of macro definitions are numbered apart from the routines; their labels are renamed again when they are built)
+    prem = None
+    for t, tr in zip(texts, traces):
+        ks = [k for k in tr.get("calls", []) if "out" in k]
+        last: dict = {}
+        pairs = []
+        for k in ks:
+            if k["ctr"] in last:
+                pairs.append((last[k["ctr"]], k))
+            last[k["ctr"]] = k
+        for a, b in pairs:
+            okp = b["cl0"] >= a["cl1"]
+            run.count("K-build premise (label counter never goes back between builds):" + ("ok" if okp else "BROKEN"))
+            if not okp and prem is None:
+                prem = {"source": t, "first": {k: a[k] for k in ("macro", "cl0", "cl1")}, "then": {k: b[k] for k in ("macro", "cl0", "cl1")}}
+    if prem is not None:
+        run.correspondence_broken("K-build (Comp/MacroBuild.v)", "premise of C05_labels_private_per_expansion: a build starts from a label "
+                                  "counter below the one an earlier build of the same compilation ended with", prem)
     usable = [(t, k) for t, k in calls if _wire_ok(k)]
     run.count("K-build:not-representable", len(calls) - len(usable))
 
